@@ -10,7 +10,6 @@
 
 use crate::expr_spec::*;
 use crate::util::Dialect;
-use proptest::prelude::*;
 use sea_query::extension::mysql::{IndexHintScope, MySqlSelectStatementExt};
 use sea_query::extension::postgres::{PostgresSelectStatementExt, SampleMethod};
 use sea_query::*;
